@@ -63,6 +63,21 @@ def random_sa_game(n: int, rng: random.Random, sing=(-5, 9), slack=(0, 3), p_zer
     return v
 
 
+def random_sa_game_cancelling(n: int, rng: random.Random, slack=(0, 3)) -> list[int]:
+    """superadditive game whose singleton values have mixed signs and sum to exactly zero (not all zero)."""
+    sing = [rng.randint(-6, 6) for _ in range(n - 1)]
+    if not any(sing):
+        sing[0] = 3
+    sing.append(-sum(sing))
+    v = [0] * (2 ** n)
+    for c in coalitions_by_size(n):
+        if popcount(c) == 1:
+            v[c] = sing[c.bit_length() - 1]
+        else:
+            v[c] = max(v[s] + v[c - s] for s in proper_subs(c)) + rng.randint(*slack)
+    return v
+
+
 def random_sam_game(n: int, rng: random.Random, lo=-6) -> list[int]:
     """superadditive and monotone non-increasing (values <= 0)."""
     v = [0] * (2 ** n)
